@@ -812,17 +812,15 @@ fn components(glyphs: &[Glyph]) -> impl Iterator<Item = &Component> {
 
 /// the readings of the offset flags that are accepted for this table
 fn legit_policies(glyphs: &[Glyph]) -> ([Policy; 6], usize) {
-    let any_scaled = components(glyphs).any(|c| c.scaled_offset && matches!(c.args, Args::Xy(..)) && c.xform != Xform::None);
-    let any_both = components(glyphs).any(|c| c.scaled_offset && c.unscaled_offset);
+    // a component with both offset flags set is placed like the same component with neither flag (the reference
+    // treats the two identically), so only components with SCALED_COMPONENT_OFFSET alone open alternatives
+    let any_scaled = components(glyphs).any(|c| c.scaled_offset && !c.unscaled_offset && matches!(c.args, Args::Xy(..)) && c.xform != Xform::None);
     let modes: &[ScaledOffset] = if any_scaled { &[ScaledOffset::Matrix, ScaledOffset::Hypot, ScaledOffset::Apple] } else { &[ScaledOffset::Matrix] };
-    let boths: &[bool] = if any_both && any_scaled { &[false, true] } else { &[false] };
     let mut v = [Policy::spec(); 6];
     let mut n = 0;
-    for &b in boths {
-        for &s in modes {
-            v[n] = Policy { dev: Deviations::default(), scaled: s, both_flags_scale: b };
-            n += 1;
-        }
+    for &s in modes {
+        v[n] = Policy { dev: Deviations::default(), scaled: s };
+        n += 1;
     }
     (v, n)
 }
@@ -885,7 +883,7 @@ fn attribute(glyphs: &[Glyph], gid: u16, observed: &Paths, flat: &mut FlatGlyph,
                 continue;
             }
             let dev = Deviations { transpose_2x2: mask & 1 != 0, nested_loses_outer: mask & 2 != 0, point_args_zero: mask & 4 != 0 };
-            let ignored = [Policy { dev, scaled: ScaledOffset::Ignored, both_flags_scale: true }];
+            let ignored = [Policy { dev, scaled: ScaledOffset::Ignored }];
             let mut with_dev = legit;
             for p in with_dev.iter_mut() {
                 p.dev = dev;
@@ -1044,6 +1042,8 @@ fn run_composite(ctx: &Ctx, col: &Collector) -> Value {
         args: vec![Args::Xy(0, 0), Args::Xy(10, -20)],
         flags: vec![(false, false), (true, false)],
     };
+    // outer components of the composite-of-composite family: also with both offset flags set
+    let outer_menu = Menus { glyphs: vec![], xf: red.xf.clone(), args: red.args.clone(), flags: vec![(false, false), (true, false), (true, true)] };
     let small = Menus { glyphs: vec![1], xf: vec![Xform::None, Xform::M2x2(F1, F1, 0, F1)], args: vec![Args::Xy(10, -20)], flags: vec![(false, false), (true, false)] };
     let bound = if thorough { 2 } else { 1 };
 
@@ -1087,8 +1087,15 @@ fn run_composite(ctx: &Ctx, col: &Collector) -> Value {
     }
 
     // (N) chains of nested composites: c_1 -> A, c_k -> c_(k-1); every level has its own transform and offset
-    let levels: [(Xform, Args); 4] =
-        [(Xform::None, Args::Xy(10, 5)), (Xform::Scale(FH), Args::Xy(-20, 30)), (Xform::M2x2(F1, F1, 0, F1), Args::Xy(7, -3)), (Xform::XY(F15, -F1), Args::Xy(0, 0))];
+    // (transform, offset, SCALED_COMPONENT_OFFSET, UNSCALED_COMPONENT_OFFSET)
+    let levels: [(Xform, Args, bool, bool); 6] = [
+        (Xform::None, Args::Xy(10, 5), false, false),
+        (Xform::Scale(FH), Args::Xy(-20, 30), false, false),
+        (Xform::M2x2(F1, F1, 0, F1), Args::Xy(7, -3), false, false),
+        (Xform::XY(F15, -F1), Args::Xy(0, 0), false, false),
+        (Xform::Scale(FH), Args::Xy(-20, 30), true, true), // both flags: like neither
+        (Xform::XY(F15, -F1), Args::Xy(8, 6), true, false),
+    ];
     let (dmax, free) = if thorough { (12usize, 5usize) } else { (9, 3) };
     let s = explore_par(1, 3, |c| {
         case(20, c, true, true, &|c, glyphs| {
@@ -1106,9 +1113,11 @@ fn run_composite(ctx: &Ctx, col: &Collector) -> Value {
             for k in 1..=d {
                 // outermost `free` levels are free choices, the rest cycle through the menu
                 let idx = if d - k < free { c.pick(levels.len()) } else { k % levels.len() };
-                let (xf, args) = levels[idx];
+                let (xf, args, scaled, unscaled) = levels[idx];
                 let child = if k == 1 { 1 } else { gid_of(k - 1) };
                 let mut comp = Component::new(child, args, xf);
+                comp.scaled_offset = scaled;
+                comp.unscaled_offset = unscaled;
                 comp.use_my_metrics = k == 1;
                 glyphs.push(composite(vec![comp]));
             }
@@ -1142,7 +1151,7 @@ fn run_composite(ctx: &Ctx, col: &Collector) -> Value {
             let mut outer: Vec<Component> = Vec::with_capacity(2);
             let mut acc_n = 0usize;
             for &g in structure {
-                let comp = gen_component(c, &red, Some(g), glyphs, acc_n, false);
+                let comp = gen_component(c, &outer_menu, Some(g), glyphs, acc_n, false);
                 acc_n += ge::point_count(glyphs, g, 64);
                 outer.push(comp);
             }
@@ -1235,7 +1244,8 @@ pub fn run(ctx: &Ctx) {
     );
     ctx.assume("paths are compared as closed sub-paths = cyclic segment sequences in contour direction; the implicit closing line of close() is made explicit and zero-length straight segments are ignored (a lone or repeated on-curve point draws nothing); sub-path order within a glyph is not demanded");
     ctx.assume("coordinates are compared with tolerance 1e-3 + 1e-5*|v| (allsorts computes in f32; all menu values are exactly representable)");
-    ctx.assume("SCALED_COMPONENT_OFFSET: any of three published readings is accepted - transform applied to the offset (OpenType text, fontTools), FreeType's hypot() scaling, Apple's max()-rule; neither flag = unscaled; both flags (invalid) = either");
+    ctx.assume("SCALED_COMPONENT_OFFSET: any of three published readings is accepted - transform applied to the offset (OpenType text, fontTools), FreeType's hypot() scaling, Apple's max()-rule; neither flag = unscaled (the default on Microsoft and Apple platforms, recommended for all)");
+    ctx.assume("both offset flags set (invalid): the component must be placed exactly like the same component with neither flag ('the rasterizer should use its default behavior for this case')");
     ctx.assume("Err(LimitExceeded) is accepted for glyphs nested more than 6 composite levels deep (the limit allsorts documents, same as HarfBuzz); deeper glyphs may also be delivered correctly");
     ctx.assume("ROUND_XY_TO_GRID, USE_MY_METRICS, OVERLAP_*, instructions and the bounding box do not affect unhinted outlines");
     ctx.assume("point-number arguments: the component is transformed first, then moved so that its point arg2 coincides with point arg1 of the composite built so far (FreeType, fontTools)");
